@@ -94,6 +94,11 @@ pub trait Prop {
         None
     }
     fn runs_for_tier(thorough: bool) -> u64;
+    /// how many run indices the thorough tier re-executes in three process layouts to prove
+    /// that a run is a function of (seed, index) alone
+    fn determinism_runs() -> u64 {
+        500
+    }
     fn rule() -> &'static str;
     fn assumptions() -> Vec<String>;
     fn real_vs_stub() -> serde_json::Value;
